@@ -100,6 +100,17 @@ package rules
 //	HE3  validator.go   (preserving) h.Std()[textproto.CanonicalMIMEHeaderKey(key)]        → silent
 //	HE4  both files     (preserving) canonicalised in Validate, plain index in GetAll      → silent
 //
+// Robustness pass (behaviour-preserving refactorings /verif/preserving/C06/r1..r4, all silent now):
+// anchors of the signer resolved by role (c06SignerRole), constructs searched over the reach of the
+// anchored function, same-package helpers interpreted in place (Inline), method values resolved
+// (c06Callee), named results with bare returns (c06Results), statuses/ages/saved signatures followed
+// through parameters of helpers. Workarounds for two engine gaps live in c06Feasible / c06TrackNonNil
+// (fmt.Errorf is not known to be non-nil) and in the "ev:atom:" mirror of c06Verify (facts of the
+// caller dropped when a second state enters an inlined helper). Further variants tried (silent):
+// V1 expiry as bool helper taking the age, V2 checks through method values in Handle, V3 named result +
+// bare returns in JWTValidator.Validate, V4 GetAll through a method value, V5 Handle split into a
+// first-failure helper + reject closure returning the result; mutated versions of r2/r4 are still caught.
+//
 // Not caught (outside the decided clauses, see NotDecided): N1 verify rebuilds the canonical headers from
 // empty values; N2 getCanonicalQuery keeps only the first value of every parameter (both are caught by the
 // signer's known-answer tests).
@@ -275,6 +286,199 @@ func c06Resolve(f *flow.Func, defs map[types.Object]ast.Expr, e ast.Expr) ast.Ex
 	return e
 }
 
+var c06DefsCache = map[*ast.BlockStmt]map[types.Object]ast.Expr{}
+
+// c06DefsOf caches c06SingleDefs per function body.
+func c06DefsOf(g *flow.Func) map[types.Object]ast.Expr {
+	if d, ok := c06DefsCache[g.Body]; ok {
+		return d
+	}
+	d := c06SingleDefs(g, g.Body)
+	c06DefsCache[g.Body] = d
+	return d
+}
+
+// c06Callee resolves the function or method a call invokes: the static callee, or — when the
+// call goes through a local that holds a method value / function value and is assigned exactly
+// once (`match := cache.Match; match(u, p)`) — that method or function. recv is the receiver
+// expression of a method (value) call, nil otherwise.
+func c06Callee(g *flow.Func, call *ast.CallExpr) (fnObj *types.Func, recv ast.Expr) {
+	fun := ast.Unparen(call.Fun)
+	if id, ok := fun.(*ast.Ident); ok {
+		if v, isVar := c06Obj(g, id).(*types.Var); isVar && !v.IsField() {
+			fun = ast.Unparen(c06Resolve(g, c06DefsOf(g), id))
+		}
+	}
+	switch x := fun.(type) {
+	case *ast.Ident:
+		fnObj, _ = c06Obj(g, x).(*types.Func)
+	case *ast.SelectorExpr:
+		if sel := g.Info.Selections[x]; sel != nil {
+			fnObj, _ = sel.Obj().(*types.Func)
+			recv = x.X
+		} else {
+			fnObj, _ = g.Info.Uses[x.Sel].(*types.Func)
+		}
+	}
+	return fnObj, recv
+}
+
+// c06IfaceMethod reports whether call invokes (directly or through a method value held in a
+// local) the method name of the named interface pkgRel.iface.
+func c06IfaceMethod(g *flow.Func, call *ast.CallExpr, pkgRel, iface, name string) bool {
+	if ifaceMethodCall(g, call, pkgRel, iface, name) {
+		return true
+	}
+	fnObj, recv := c06Callee(g, call)
+	if fnObj == nil || fnObj.Name() != name || recv == nil {
+		return false
+	}
+	tv, ok := g.Info.Types[recv]
+	if !ok || tv.Type == nil {
+		return false
+	}
+	n, ok := tv.Type.(*types.Named)
+	return ok && n.Obj().Pkg() != nil && n.Obj().Pkg().Path() == Mod+pkgRel && n.Obj().Name() == iface
+}
+
+// c06Feasible works around a gap of the flow engine: it does not know that fmt.Errorf(..) /
+// errors.New(..) / &T{} are non-nil, so when a same-package helper is interpreted in place
+// (`if e := ctx.check(); e != nil { return e }`) the helper's `return fmt.Errorf(..)` exit is
+// also continued on the `e == nil` edge. The tracker remembers, per receiving variable (or call
+// expression tested in place), that the helper's last return yielded a certainly non-nil error
+// and marks states that later assume that value nil as infeasible.
+type c06Feasible struct {
+	f    *flow.Func
+	body map[string]*ast.BlockStmt // receiver key → body of the helper whose result it receives
+}
+
+func c06NewFeasible(f *flow.Func) *c06Feasible {
+	return &c06Feasible{f: f, body: map[string]*ast.BlockStmt{}}
+}
+
+func (t *c06Feasible) helperBody(call *ast.CallExpr) (*ast.BlockStmt, int) {
+	fo, ok := t.f.Callee(call).(*types.Func)
+	if !ok || fo.Pkg() != t.f.Pkg.Types {
+		return nil, -1
+	}
+	fd := declOf(t.f.Pkg, fo)
+	if fd == nil {
+		return nil, -1
+	}
+	res := fo.Type().(*types.Signature).Results()
+	for i := 0; i < res.Len(); i++ {
+		if isErrorTypeC06(res.At(i).Type()) {
+			return fd.Body, i
+		}
+	}
+	return nil, -1
+}
+
+func (t *c06Feasible) receive(st *flow.State, key string, body *ast.BlockStmt) {
+	t.body[key] = body
+	st.Set("ev:c06:rcv:"+key, flow.True)
+	st.Set("ev:c06:nonnil:"+key, flow.Unknown)
+}
+
+// onNode must be called from the rule's OnNode hook.
+func (t *c06Feasible) onNode(st *flow.State, n ast.Node) {
+	switch s := n.(type) {
+	case *ast.AssignStmt:
+		if len(s.Rhs) == 1 {
+			if call, ok := ast.Unparen(s.Rhs[0]).(*ast.CallExpr); ok {
+				if body, idx := t.helperBody(call); body != nil && idx < len(s.Lhs) {
+					if id, ok := s.Lhs[idx].(*ast.Ident); ok && id.Name != "_" {
+						t.receive(st, t.f.NilKey(id), body)
+					}
+				}
+			}
+		}
+	case *ast.ReturnStmt:
+		for key, body := range t.body {
+			if !contains(body, s) || !st.Is("ev:c06:rcv:"+key, flow.True) {
+				continue
+			}
+			nonnil := flow.Unknown
+			for _, r := range s.Results {
+				if tv, ok := t.f.Info.Types[r]; ok && tv.Type != nil && isErrorTypeC06(tv.Type) && c06ReturnedNilness(t.f, st, r) == flow.False {
+					nonnil = flow.True
+				}
+			}
+			st.Set("ev:c06:nonnil:"+key, nonnil)
+		}
+	case ast.Expr:
+		// a helper tested in place: if h(..) != nil
+		ast.Inspect(s, func(x ast.Node) bool {
+			if call, ok := x.(*ast.CallExpr); ok {
+				if body, _ := t.helperBody(call); body != nil {
+					t.receive(st, t.f.NilKey(call), body)
+				}
+			}
+			return true
+		})
+	}
+}
+
+// afterAssume must be called from the rule's AfterAssume hook.
+func (t *c06Feasible) afterAssume(st *flow.State) {
+	for key := range t.body {
+		if st.Is("ev:c06:nonnil:"+key, flow.True) && st.Is(key, flow.True) {
+			st.Set("ev:c06:infeasible", flow.True)
+		}
+	}
+}
+
+func (t *c06Feasible) infeasible(st *flow.State) bool { return st.Is("ev:c06:infeasible", flow.True) }
+
+// c06Results returns the result expressions of an exit of g: those of the return statement,
+// or — for a bare return with named results — the named result identifiers.
+func c06Results(g *flow.Func, ex *flow.Exit) []ast.Expr {
+	if ex.Return != nil && len(ex.Return.Results) > 0 {
+		return ex.Return.Results
+	}
+	var out []ast.Expr
+	if g.Type != nil && g.Type.Results != nil {
+		for _, fld := range g.Type.Results.List {
+			for _, nm := range fld.Names {
+				out = append(out, nm)
+			}
+		}
+	}
+	return out
+}
+
+// c06TrackNonNil is an OnNode helper: the engine does not know that fmt.Errorf(..) and
+// errors.New(..) are non-nil, so `err = fmt.Errorf(..); return` (named result, bare return)
+// would count as a possibly-nil result. The variable assigned such a value is remembered in an
+// event that any later assignment to it clears.
+func c06TrackNonNil(f *flow.Func, st *flow.State, n ast.Node) {
+	var lhs, rhs []ast.Expr
+	switch s := n.(type) {
+	case *ast.AssignStmt:
+		lhs, rhs = s.Lhs, s.Rhs
+	case *ast.ValueSpec:
+		for _, nm := range s.Names {
+			lhs = append(lhs, nm)
+		}
+		rhs = s.Values
+	default:
+		return
+	}
+	for i, l := range lhs {
+		id, ok := ast.Unparen(l).(*ast.Ident)
+		if !ok || id.Name == "_" {
+			continue
+		}
+		v := flow.Unknown
+		if len(lhs) == len(rhs) && c06ReturnedNilness(f, st, rhs[i]) == flow.False {
+			if _, isIdent := ast.Unparen(rhs[i]).(*ast.Ident); !isIdent {
+				v = flow.True
+			}
+		}
+		st.Set("ev:nn:"+f.NilKey(id), v)
+	}
+}
+
 // c06ConstString returns the constant string value of e.
 func c06ConstString(f *flow.Func, e ast.Expr) (string, bool) {
 	tv, ok := f.Info.Types[e]
@@ -329,7 +533,13 @@ func c06ReturnedNilness(f *flow.Func, st *flow.State, e ast.Expr) flow.Val {
 		if _, isNil := f.Info.Uses[id].(*types.Nil); isNil {
 			return flow.True
 		}
-		return st.Get(f.NilKey(id))
+		if v := st.Get(f.NilKey(id)); v != flow.Unknown {
+			return v
+		}
+		if st.Is("ev:nn:"+f.NilKey(id), flow.True) {
+			return flow.False // assigned fmt.Errorf(..) / errors.New(..) / &T{} (see c06TrackNonNil)
+		}
+		return flow.Unknown
 	}
 	switch x := e.(type) {
 	case *ast.CallExpr:
@@ -358,6 +568,7 @@ type c06Site struct {
 	errObj types.Object // variable the result is assigned to (nil when tested in place)
 	own    ast.Node     // the statement assigning it
 	weak   bool         // a wrapper that may return nil without the check having passed: only its errors count
+	in     *flow.Func   // the function the call sits in
 }
 
 // c06RespSummary says what a helper does on every return path.
@@ -532,6 +743,8 @@ type c06Checks struct {
 	sites   []*c06Site
 	// helpers that consult a field but may return nil without the check having passed
 	unfaithful map[*types.Var]string
+	// the check methods and wrappers called at the sites (kept opaque when helpers are interpreted in place)
+	callees map[types.Object]bool
 }
 
 func (k *c06Checks) pend(s *c06Site) string       { return sprintf("ev:pending:%d", s.idx) }
@@ -573,6 +786,7 @@ func (k *c06Checks) promote(st *flow.State) {
 }
 
 func (k *c06Checks) onNode(st *flow.State, n ast.Node) {
+	c06TrackNonNil(k.f, st, n)
 	k.promote(st)
 	var lhs []ast.Expr
 	switch s := n.(type) {
@@ -613,79 +827,98 @@ func (k *c06Checks) onCall(st *flow.State, call *ast.CallExpr) {
 type c06Wrapper struct{ covered, consulted []*types.Var }
 
 func c06FindChecks(c *core.Ctx, f *flow.Func, fields []*types.Var, depth int, wrappers map[types.Object]*c06Wrapper) *c06Checks {
-	k := &c06Checks{f: f, fields: fields, defs: c06SingleDefs(f, f.Body), nilKeys: map[*types.Var]map[string]bool{}, unfaithful: map[*types.Var]string{}}
+	k := &c06Checks{f: f, fields: fields, defs: map[types.Object]ast.Expr{}, nilKeys: map[*types.Var]map[string]bool{}, unfaithful: map[*types.Var]string{}, callees: map[types.Object]bool{}}
+	// the function together with the same-package functions it calls: after "extract function"
+	// the checks sit in a helper which the flow engine interprets in place
+	gs := []*flow.Func{f}
+	if depth == 0 {
+		gs = reach(f, 3)
+	}
+	for _, g := range gs {
+		for o, d := range c06DefsOf(g) {
+			k.defs[o] = d
+		}
+	}
 	for _, fld := range fields {
 		k.nilKeys[fld] = map[string]bool{}
 	}
-	ast.Inspect(f.Body, func(n ast.Node) bool {
-		if e, ok := n.(ast.Expr); ok {
-			switch e.(type) {
-			case *ast.SelectorExpr, *ast.Ident:
-				if fld := k.fieldOf(e); fld != nil {
-					k.nilKeys[fld][f.NilKey(e)] = true
+	for _, g := range gs {
+		ast.Inspect(g.Body, func(n ast.Node) bool {
+			if e, ok := n.(ast.Expr); ok {
+				switch e.(type) {
+				case *ast.SelectorExpr, *ast.Ident:
+					if fld := k.fieldOf(e); fld != nil {
+						k.nilKeys[fld][f.NilKey(e)] = true
+					}
 				}
 			}
-		}
-		return true
-	})
-	pm := parentMap(f.Body)
-	addSite := func(fld *types.Var, call *ast.CallExpr, weak bool) {
-		s := &c06Site{idx: len(k.sites), field: fld, call: call, resKey: f.NilKey(call), weak: weak}
-		var p ast.Node = call
-		for {
-			pp, ok := pm[p].(*ast.ParenExpr)
-			if !ok {
-				break
-			}
-			p = pp
-		}
-		switch st := pm[p].(type) {
-		case *ast.AssignStmt:
-			if len(st.Rhs) == 1 && len(st.Lhs) == 1 {
-				if id, ok := st.Lhs[0].(*ast.Ident); ok && id.Name != "_" {
-					s.errObj, s.own, s.resKey = c06Obj(f, id), st, f.NilKey(id)
-				}
-			}
-		case *ast.ValueSpec:
-			if len(st.Values) == 1 && len(st.Names) == 1 && st.Names[0].Name != "_" {
-				s.errObj, s.own, s.resKey = c06Obj(f, st.Names[0]), st, f.NilKey(st.Names[0])
-			}
-		}
-		k.sites = append(k.sites, s)
+			return true
+		})
 	}
-	for _, call := range calls(f.Body, false) {
-		if sel, ok := ast.Unparen(call.Fun).(*ast.SelectorExpr); ok {
-			if fld := k.fieldOf(sel.X); fld != nil {
-				if m, ok := f.Callee(call).(*types.Func); ok && c06IsErrorResult(m.Type().(*types.Signature)) {
-					addSite(fld, call, false)
+	for _, g := range gs {
+		g := g
+		pm := parentMap(g.Body)
+		addSite := func(fld *types.Var, call *ast.CallExpr, weak bool) {
+			s := &c06Site{idx: len(k.sites), field: fld, call: call, resKey: f.NilKey(call), weak: weak, in: g}
+			var p ast.Node = call
+			for {
+				pp, ok := pm[p].(*ast.ParenExpr)
+				if !ok {
+					break
 				}
+				p = pp
+			}
+			switch st := pm[p].(type) {
+			case *ast.AssignStmt:
+				if len(st.Rhs) == 1 && len(st.Lhs) == 1 {
+					if id, ok := st.Lhs[0].(*ast.Ident); ok && id.Name != "_" {
+						s.errObj, s.own, s.resKey = c06Obj(f, id), st, f.NilKey(id)
+					}
+				}
+			case *ast.ValueSpec:
+				if len(st.Values) == 1 && len(st.Names) == 1 && st.Names[0].Name != "_" {
+					s.errObj, s.own, s.resKey = c06Obj(f, st.Names[0]), st, f.NilKey(st.Names[0])
+				}
+			}
+			k.sites = append(k.sites, s)
+		}
+		for _, call := range calls(g.Body, false) {
+			// a method of a validator field, called directly or through a method value
+			if m, recv := c06Callee(g, call); m != nil && recv != nil {
+				if fld := k.fieldOf(recv); fld != nil {
+					if c06IsErrorResult(m.Type().(*types.Signature)) {
+						addSite(fld, call, false)
+						k.callees[m] = true
+					}
+					continue
+				}
+			}
+			if depth > 0 {
 				continue
 			}
-		}
-		if depth > 0 {
-			continue
-		}
-		key, h := c06HelperOf(c, f, k.defs, call)
-		if key == nil || h == nil {
-			continue
-		}
-		cw, done := wrappers[key]
-		if !done {
-			cw = &c06Wrapper{}
-			cw.covered, cw.consulted = c06WrapperCovers(c, h, fields)
-			wrappers[key] = cw
-		}
-		for _, fld := range cw.consulted {
-			faithful := false
-			for _, cv := range cw.covered {
-				if cv == fld {
-					faithful = true
+			key, h := c06HelperOf(c, g, k.defs, call)
+			if key == nil || h == nil {
+				continue
+			}
+			cw, done := wrappers[key]
+			if !done {
+				cw = &c06Wrapper{}
+				cw.covered, cw.consulted = c06WrapperCovers(c, h, fields)
+				wrappers[key] = cw
+			}
+			for _, fld := range cw.consulted {
+				faithful := false
+				for _, cv := range cw.covered {
+					if cv == fld {
+						faithful = true
+					}
 				}
+				if !faithful {
+					k.unfaithful[fld] = key.Name()
+				}
+				addSite(fld, call, !faithful)
+				k.callees[key] = true
 			}
-			if !faithful {
-				k.unfaithful[fld] = key.Name()
-			}
-			addSite(fld, call, !faithful)
 		}
 	}
 	return k
@@ -731,20 +964,21 @@ func c06WrapperCovers(c *core.Ctx, h *flow.Func, fields []*types.Var) (covered, 
 			if ex.Kind != flow.ExitReturn {
 				continue
 			}
-			if ex.Return == nil || len(ex.Return.Results) != 1 {
+			rs := c06Results(h, ex)
+			if len(rs) != 1 {
 				ok = false
 				continue
 			}
-			if c06ReturnedNilness(h, ex.State, ex.Return.Results[0]) == flow.False {
+			if c06ReturnedNilness(h, ex.State, rs[0]) == flow.False {
 				continue
 			}
 			// returning the very variable that holds the check's result hands the verdict on
 			relayed := false
 			for _, s := range k.sites {
-				if s.field == fld && s.errObj != nil && c06Obj(h, ex.Return.Results[0]) == s.errObj && ex.State.Is(k.pend(s), flow.True) {
+				if s.field == fld && s.errObj != nil && c06Obj(h, rs[0]) == s.errObj && ex.State.Is(k.pend(s), flow.True) {
 					relayed = true
 				}
-				if s.field == fld && ast.Unparen(ex.Return.Results[0]) == ast.Expr(s.call) {
+				if s.field == fld && ast.Unparen(rs[0]) == ast.Expr(s.call) {
 					relayed = true
 				}
 			}
@@ -825,21 +1059,99 @@ func c06Handle(c *core.Ctx) {
 		}
 		return summaries[key]
 	}
+	// an integer known at a call: a constant (possibly through single-definition locals) or a
+	// value the engine tracks by an equality fact (a status handed over through variables,
+	// results and parameters of helpers interpreted in place)
+	stateInt := func(st *flow.State, e ast.Expr) (string, bool) {
+		if v, ok := c06ConstInt(f, c06Resolve(f, defs, e)); ok {
+			return v, true
+		}
+		pre := "eq:" + f.Render(ast.Unparen(e)) + "=="
+		for _, fact := range st.Facts() {
+			if strings.HasPrefix(fact, pre) && strings.HasSuffix(fact, "=T") {
+				lit := strings.TrimSuffix(strings.TrimPrefix(fact, pre), "=T")
+				if len(lit) > 0 && lit[0] >= '0' && lit[0] <= '9' {
+					return lit, true
+				}
+			}
+		}
+		return "", false
+	}
+	// helpers interpreted in place: the functions of the reach that hold a check site or a
+	// response call (or lead to one); the check methods and wrappers themselves stay opaque
+	gs := reach(f, 3)
+	interesting := map[*ast.BlockStmt]bool{}
+	for _, g := range gs {
+		for _, call := range calls(g.Body, true) {
+			if c06IsSetStatus(g, call) || c06IsSetOutput(g, call) {
+				interesting[g.Body] = true
+			}
+			for _, s := range sites {
+				if s.call == call {
+					interesting[g.Body] = true
+				}
+			}
+		}
+	}
+	for changed := true; changed; {
+		changed = false
+		for _, g := range gs {
+			if interesting[g.Body] {
+				continue
+			}
+			for _, call := range calls(g.Body, true) {
+				if fo, ok := f.Callee(call).(*types.Func); ok && fo.Pkg() == f.Pkg.Types && !k.callees[fo] {
+					if fd := declOf(f.Pkg, fo); fd != nil && interesting[fd.Body] {
+						interesting[g.Body] = true
+						changed = true
+					}
+				}
+			}
+		}
+	}
+	var opaque []types.Object
+	inlinable := map[types.Object]bool{}
+	for _, g := range gs {
+		o := c06FuncObj(g)
+		if o == nil {
+			continue
+		}
+		if !interesting[g.Body] || k.callees[o] {
+			opaque = append(opaque, o)
+		} else {
+			inlinable[o] = true
+		}
+	}
+	for o := range k.callees {
+		opaque = append(opaque, o)
+	}
+	feas := c06NewFeasible(f)
 	res := analyze(c, f, flow.Config{
-		OnNode:      k.onNode,
-		AfterAssume: func(st *flow.State, cond ast.Expr, outcome bool) { k.promote(st) },
+		Inline: inlineSamePkg(f, opaque...),
+		OnNode: func(st *flow.State, n ast.Node) {
+			feas.onNode(st, n)
+			k.onNode(st, n)
+		},
+		AfterAssume: func(st *flow.State, cond ast.Expr, outcome bool) {
+			feas.afterAssume(st)
+			k.promote(st)
+		},
 		OnCall: func(st *flow.State, call *ast.CallExpr, callee types.Object, deferred bool) {
 			k.onCall(st, call)
 			switch {
 			case c06IsSetStatus(f, call) && len(call.Args) == 1:
-				if v, ok := c06ConstInt(f, c06Resolve(f, defs, call.Args[0])); ok {
+				if v, ok := stateInt(st, call.Args[0]); ok {
 					st.Set("ev:status:"+v, flow.True)
-				} else {
+				} else if contains(f.Body, call) {
 					st.Set("ev:status:?", flow.True)
 				}
+				// inside a helper interpreted in place an unresolved status is left to the
+				// summary applied at the helper's call (the engine may have dropped the fact
+				// about the argument when a second state entered the helper)
 			case c06IsSetOutput(f, call):
 				st.Set("ev:respset", flow.True)
 			default:
+				key, _ := c06HelperOf(c, f, defs, call)
 				if sum := summaryOf(call); sum != nil {
 					if sum.respSet {
 						st.Set("ev:respset", flow.True)
@@ -848,9 +1160,9 @@ func c06Handle(c *core.Ctx) {
 					case sum.statusConst != "":
 						st.Set("ev:status:"+sum.statusConst, flow.True)
 					case sum.statusParam >= 0 && sum.statusParam < len(call.Args):
-						if v, ok := c06ConstInt(f, c06Resolve(f, defs, call.Args[sum.statusParam])); ok {
+						if v, ok := stateInt(st, call.Args[sum.statusParam]); ok {
 							st.Set("ev:status:"+v, flow.True)
-						} else {
+						} else if key == nil || !inlinable[key] {
 							st.Set("ev:status:?", flow.True)
 						}
 					}
@@ -861,15 +1173,55 @@ func c06Handle(c *core.Ctx) {
 	if res == nil {
 		return
 	}
+	wasInlined := func(g *flow.Func) bool {
+		if g == nil || g.Body == f.Body {
+			return true
+		}
+		for _, n := range res.Inlined {
+			if n == g.Name {
+				return true
+			}
+		}
+		return false
+	}
 
 	// the value returned at an exit
 	retVal := func(ex *flow.Exit) (string, bool) {
-		if ex.Return == nil || len(ex.Return.Results) != 1 {
+		rs := c06Results(f, ex)
+		if len(rs) != 1 {
 			return "", false
 		}
-		r := ex.Return.Results[0]
+		r := rs[0]
 		if v, ok := c06ConstString(f, r); ok {
 			return v, true
+		}
+		if call, ok := ast.Unparen(r).(*ast.CallExpr); ok {
+			// `return reject(status, err)`: a closure or same-package helper all of whose
+			// returns yield the same constant
+			if _, h := c06HelperOf(c, f, defs, call); h != nil {
+				val, n, same := "", 0, true
+				ast.Inspect(h.Body, func(x ast.Node) bool {
+					switch t := x.(type) {
+					case *ast.FuncLit:
+						return false
+					case *ast.ReturnStmt:
+						if len(t.Results) != 1 {
+							same = false
+							return true
+						}
+						v, ok := c06ConstString(h, t.Results[0])
+						if !ok || (n > 0 && v != val) {
+							same = false
+						}
+						val = v
+						n++
+					}
+					return true
+				})
+				if same && n > 0 {
+					return val, true
+				}
+			}
 		}
 		if id, ok := ast.Unparen(r).(*ast.Ident); ok {
 			pre := "eq:" + f.Render(id) + "=="
@@ -917,15 +1269,18 @@ func c06Handle(c *core.Ctx) {
 		reject[fld] = &verdict{}
 	}
 	spurious := &verdict{}
-	accepts, rejects := 0, 0
+	accepts, rejects, undecidedExits := 0, 0, 0
 	for _, ex := range res.Exits {
-		if ex.Kind != flow.ExitReturn {
+		if ex.Kind != flow.ExitReturn || feas.infeasible(ex.State) {
 			continue
 		}
 		st := ex.State
 		val, ok := retVal(ex)
 		if !ok {
-			c.Undecide(rule, cons+"|result", pos(c, ex.At), "a return of Handle does not yield a constant result")
+			if undecidedExits == 0 {
+				c.Undecide(rule, cons+"|result", pos(c, ex.At), "a return of Handle does not yield a constant result")
+			}
+			undecidedExits++
 			continue
 		}
 		var failedSites []*c06Site
@@ -989,7 +1344,8 @@ func c06Handle(c *core.Ctx) {
 		name := fld.Name()
 		n := 0
 		for _, s := range sites {
-			if s.field == fld && !s.weak {
+			// a direct call inside a wrapper is accounted for by the wrapper's own site
+			if s.field == fld && !s.weak && !k.callees[c06FuncObj(s.in)] {
 				n++
 			}
 		}
@@ -1003,7 +1359,18 @@ func c06Handle(c *core.Ctx) {
 			}
 			continue
 		}
+		// a check that sits in a helper the engine could not interpret in place cannot be judged
+		notSeen := ""
+		for _, s := range sites {
+			if s.field == fld && !wasInlined(s.in) && !k.callees[c06FuncObj(s.in)] {
+				notSeen = s.in.Name
+			}
+		}
 		v := admit[fld]
+		if v.bad != nil && notSeen != "" {
+			c.Undecide(rule, cons+"|admit requires "+name, pos(c, v.bad.At), "the "+name+" check sits in "+notSeen+", which could not be interpreted in place from Handle")
+			continue
+		}
 		if v.bad != nil {
 			c.Violate(rule, cons+"|admit requires "+name, pos(c, v.bad.At), v.why, witness(v.bad.State)...)
 		} else {
@@ -1015,6 +1382,8 @@ func c06Handle(c *core.Ctx) {
 		switch {
 		case v.bad != nil:
 			c.Violate(rule, cons+"|"+name+" failure → invalid + "+want, pos(c, v.bad.At), v.why, witness(v.bad.State)...)
+		case v.n == 0 && undecidedExits > 0:
+			// the exits that could not be classified may be the ones following this failure
 		case v.n == 0:
 			// no exit is known to follow a failure of this validator; the admit obligation
 			// reports the dropped branch, here there is nothing to check
